@@ -51,17 +51,29 @@ def main():
     prefix = None
     if "--facts" in sys.argv: prefix = sys.argv[sys.argv.index("--facts") + 1]
     if prefix is None:
-        oks = sorted(glob.glob('/verif/.cache/facts/*.ok'), key=os.path.getmtime)
-        prefix = oks[-1][:-3] if oks else '/verif/.cache/facts/cur'
+        prefix = '/verif/.cache/facts/cur'
     facts = F.load(prefix)
-    for b in facts.bodies.values():
+    view = None
+    if "--inline" in sys.argv: view = "inline"
+    if "--sugar" in sys.argv: view = "sugar"
+    if prefix is None and os.path.exists('/verif/.cache/facts/cur.blockwatch.lib.json') and "--latest" not in sys.argv:
+        pass
+    for b in list(facts.bodies.values()):
         if not re.search(rx, b.id): continue
+        if view:
+            from engine.inline import inlined
+            from engine.core import Ctx
+            b = inlined(facts, b, skip=Ctx.domain_api, tag="show", sugar=(view == "sugar"))
         print("=" * 100)
         print(b.id, b.kind, "argc=%d" % b.argc, b.loc(), "coroutine" if b.coroutine else "")
         for i, l in enumerate(b.locals):
             if l.get("name") or i <= b.argc: print("   _%d: %s  %s" % (i, l["ty"], l.get("name") or ""))
         for i, bl in enumerate(b.blocks):
             if bl["cleanup"]: continue
+            if view and not getattr(b, "_reach", None):
+                from engine.cfg import cfg_of
+                b._reach = cfg_of(b).reachable
+            if view and i not in b._reach: continue
             print(" bb%d:" % i)
             for s in bl["stmts"]:
                 if s["k"] == "assign": print("     %s = %s      // L%s" % (pl(s["lhs"]), rv(s["rv"], facts), s["span"]["line"]))
